@@ -38,8 +38,8 @@ class Prog:
             if n.get("k") == "Block":
                 for i, st in enumerate(n.get("stmts", [])):
                     if st.get("k") == "Let" and st["pat"].get("k") == "Bind":
-                        init = strip(st.get("init") or {})
-                        if init.get("k") == "Index" and L.local_name(init["base"]) == base_name and (strip(init["index"]).get("path") or "").endswith("RangeFull"):
+                        init = strip(st.get("init") or {})    # `&BASE[..]` / `BASE.as_slice()` / `&BASE` all strip to BASE
+                        if (st["pat"].get("ty") or "") == "&[u8]" and L.local_name(init) == base_name and st["pat"].get("name") != base_name:
                             self.cur_ids = {st["pat"]["id"]}
                             return {"k": "Block", "stmts": n["stmts"][i + 1:], "tail": n.get("tail")}
         raise Unsupported(self.body["tir"]["value"], "no cursor over `%s`" % base_name)
@@ -155,7 +155,8 @@ class Prog:
         if n2.get("k") != "Block":
             self.ev(n2, tag, tail)
             return
-        for s in n2.get("stmts", []):
+        stmts = n2.get("stmts", [])
+        for si, s in enumerate(stmts):
             if s.get("k") == "Let":
                 nm = s["pat"].get("name") if s["pat"].get("k") == "Bind" else None
                 t = (tag + "." if tag else "") + nm if nm else tag
@@ -163,7 +164,17 @@ class Prog:
                     t = tag if nm == "buf" else t
                 self.ev(s.get("init"), t, tail)
             elif s.get("k") == "Expr":
-                self.ev(s["e"], tag, tail)
+                # `r.read_exact(&mut scratch)?; let x = decode(&scratch);`: the bytes are destined for x
+                t = tag
+                e0 = L.strip_try(s["e"])
+                if e0.get("k") == "MethodCall" and e0.get("method") == "read_exact" and self.is_cursor(e0["recv"]):
+                    tgt = strip(e0["args"][0])
+                    if tgt.get("k") == "Path" and tgt.get("res") == "local" and not (tgt.get("name") or "").startswith("unmapped") and tgt.get("name") != "buf":
+                        users = [s2 for s2 in stmts[si + 1:] if s2.get("k") == "Let" and s2["pat"].get("k") == "Bind" and any(x.get("k") == "Path" and x.get("id") == tgt.get("id") for x in tir.walk(s2.get("init") or {}))]
+                        tails_use = n2.get("tail") is not None and any(x.get("k") == "Path" and x.get("id") == tgt.get("id") for x in tir.walk(n2["tail"]))
+                        if len(users) == 1 and not tails_use:
+                            t = (tag + "." if tag else "") + users[0]["pat"]["name"]
+                self.ev(s["e"], t, tail)
         if n2.get("tail"):
             self.ev(n2["tail"], tag, tail)
 
